@@ -538,7 +538,11 @@ func c07Eval(c *Ctx, kind string, raw []byte) {
 				return
 			}
 			executed := 0
-			for _, e := range p.EditsL {
+			for i, e := range p.EditsL {
+				// read before every edit (through the read APIs Diff itself uses, and the others)
+				if !dhReport(c, "hist:", i, d.reads(dhReadOpts{Light: true})) {
+					return
+				}
 				st := d.apply(e)
 				if st == "skip" {
 					continue
@@ -599,6 +603,10 @@ func c07Eval(c *Ctx, kind string, raw []byte) {
 				return ov
 			}
 			lo, ro := build(lm), build(rm)
+			// the same overlay document on both sides: no difference in any layer
+			for k, ms := range diff.OverlayDocs(lo, lo) {
+				c.Direct("overlaydocs-self-empty", len(*ms) == 0, map[string]any{"layer": k, "mods": c07ModsWire(*ms)})
+			}
 			res := diff.OverlayDocs(lo, ro)
 			for _, k := range sortedKeys(res) {
 				got[k] = c07ModsWire(*res[k])
